@@ -208,7 +208,7 @@ def block_verdict(b):
     return False, None
 
 
-def run_once(binary, root, j, yseed, extra=(), timeout=300):
+def run_once(binary, root, j, yseed, extra=(), timeout=300, _attempt=0):
     for f in ("tfel-check.log",):
         try:
             os.remove(os.path.join(root, f))
@@ -234,7 +234,12 @@ def run_once(binary, root, j, yseed, extra=(), timeout=300):
         text = open(os.path.join(root, "tfel-check.log"), errors="replace").read()
     except OSError:
         text = ""
-    return rc, text, err.decode(errors="replace")[-2000:]
+    err = err.decode(errors="replace")
+    if rc == 127 and _attempt < 4 and any(w in err for w in ("error while loading shared libraries",
+                                                             "symbol lookup error", "undefined symbol")):
+        time.sleep(30)      # a shared library of the build tree is being relinked by another check
+        return run_once(binary, root, j, yseed, extra, timeout, _attempt + 1)
+    return rc, text, err[-2000:]
 
 
 def hexline(l):
@@ -280,6 +285,8 @@ def run(ck):
     jobs_list = [1, 2, 3, 5, 16] if q else list(range(1, 17))
     for tr in range(ntrees):
         nchecks = rng.choice([6, 12, 20]) if q else rng.choice([4, 10, 20, 40])
+        if tr == ntrees - 1:
+            nchecks = max(nchecks, 16)
         root = ck.path("tree%d" % tr)
         specs = gen_tree(rng, root, nchecks)
         if tr == 0:   # one tree whose checks all pass: the exit status must be EXIT_SUCCESS
@@ -306,7 +313,9 @@ def run(ck):
         expected_status = 1 if any(not v for v in model_verdict.values()) else 0
         stats["checks"] += len(specs)
         reference = None      # blocks of the first run (-j 1), by test name
-        for j in jobs_list:
+        # the last tree is also run repeatedly with the largest number of jobs (many short commands in parallel)
+        stress = [16] * (6 if q else 30) if tr == ntrees - 1 else []
+        for j in jobs_list + stress:
             yseed = rng.randrange(1, 2 ** 31) if j > 1 else 0
             rc, text, err = run_once(binary, root, j, yseed, extra)
             stats["runs"] += 1
@@ -322,9 +331,14 @@ def run(ck):
             stats["orders"].add(tuple(names))
             # --- the property's own predicate on the outputs of the implementation
             ok = True
-            if rc not in (0, 1):
+            if rc == "timeout":
                 ok = False
-                report(SITE + ":exit-status", True, "tfel-check -j %d ended with status %d (crash?)" % (j, rc), rep)
+                report(SITE + ":hang", True, "tfel-check -j %d on %d checks did not terminate (killed after 300 s)" %
+                       (j, len(specs)), rep)
+            elif rc not in (0, 1):
+                ok = False
+                report(SITE + ":crash", True, "tfel-check -j %d on %d checks ended with status %s (%d blocks in the log)" %
+                       (j, len(specs), rc, len(blocks)), rep)
             if tail:
                 ok = False
                 report(SITE + ":log-blocks", True, "tfel-check.log (-j %d) ends with an unterminated block: %r" % (j, tail[:3]),
